@@ -347,7 +347,11 @@ private :
     // -----------------------------------------------------------------------
     enum Constants
     {
+#if defined(XERCES_VERIF_HOOKS) && defined(XERCES_VERIF_TMPBUF)
+        kTmpBufSize     = XERCES_VERIF_TMPBUF
+#else
         kTmpBufSize     = 16 * 1024
+#endif
     };
 
 
